@@ -401,6 +401,42 @@ func runC17(c *fw.Case) {
 			}
 		}
 	}
+	// --- deriving an upper-cased copy of the column leaves the column, its declared values and the caller's list as they were
+	if rng.Intn(3) == 0 {
+		declCopy := append([]string(nil), declared...)
+		var up qframe.QFrame
+		if c.GuardFail("apply-toupper", "Apply ToUpper e -> e_upper", func() {
+			up = dq.Apply(qframe.Instruction{Fn: "ToUpper", DstCol: "e_upper", SrcCol1: "e"})
+		}) && up.Err == nil {
+			c.Eval(1)
+			c.Count("source_checks_after_toupper", 1)
+			if fmt.Sprintf("%q", declared) != fmt.Sprintf("%q", declCopy) {
+				c.Fail("declared-list-changed", "the caller's list of declared values changed after Apply(ToUpper): %q, was %q", trimList(declared), trimList(declCopy))
+				return
+			}
+			for _, fr := range []struct {
+				name string
+				qf   qframe.QFrame
+			}{{"the source frame", dq}, {"the derived frame (source column e)", up.Select(sh.Names()...)}} {
+				if got, oerr := model.ObserveGuard(fr.qf); oerr != nil {
+					c.Fail("source-after-toupper", "%s cannot be observed after Apply(ToUpper): %v", fr.name, oerr)
+					return
+				} else if d := model.Diff(sh, got); d != "" {
+					c.Fail("source-after-toupper", "%s changed after Apply(ToUpper): %s", fr.name, d)
+					return
+				}
+				k := declared[rng.Intn(len(declared))]
+				if r := fr.qf.Filter(qframe.Filter{Column: "e", Comparator: "<=", Arg: k}); r.Err != nil {
+					c.Fail("source-after-toupper", "Filter{e <= %q} on %s after Apply(ToUpper) is rejected: %v", k, fr.name, r.Err)
+					return
+				}
+				if r := fr.qf.Filter(qframe.Filter{Column: "e", Comparator: "=", Arg: "not-a-declared-value"}); r.Err == nil {
+					c.Fail("undeclared-constant-accepted:after-toupper", "Filter{e = \"not-a-declared-value\"} on %s after Apply(ToUpper) returned no Err", fr.name)
+					return
+				}
+			}
+		}
+	}
 	// --- sort follows declared order
 	root := &model.Root{Shadow: sh, QF: dq, Path: path, Shape: model.IndexShape(dq)}
 	for _, rev := range []bool{false, true} {
